@@ -310,7 +310,11 @@ func checkLongintSiblings(p *Prog, r *Report) {
 					return "i32(?)"
 				}
 				if n == "encoding/binary.Write" {
-					if mi, ok := c.Common().Args[2].(*ssa.MakeInterface); ok && pe.C(mi.X) == ssa.Value(data) {
+					a2 := c.Common().Args[2]
+					if _, isMI := a2.(*ssa.MakeInterface); !isMI {
+						a2 = pe.C(a2) // writeLE(data any): the helper's parameter → the caller's boxed value
+					}
+					if mi, ok := a2.(*ssa.MakeInterface); ok && pe.C(mi.X) == ssa.Value(data) {
 						return "i64(v)"
 					}
 					return "bin(?)"
